@@ -82,6 +82,27 @@ def fill(claim, na):
         "documented shapes in docstrings; numpy view sharing on slicing is by design.",
         "DESIGN.md section 2, C01",
     )
+    claim(
+        "C12",
+        "dominance/post-dominance of index updates over line-list mutations on statement CFGs; "
+        "reader/writer flag-set agreement by backward slice of the emitted string; quoting-set "
+        "agreement; linear arithmetic over symbolic line counts (custom ast analysis)",
+        "Decides text/index coupling, key normalisation and reader/writer grammar agreement: in "
+        "FastaFile, FastqFile, GenBankFile and GFFFile every statement that changes the number or "
+        "position of lines is dominated or post-dominated by an index update; the key stored on "
+        "the FASTA/FASTQ fast path is the expression written behind the marker and is normalised "
+        "before any lookup; per GenBank location shape the defect flags the reader can produce "
+        "are the flags the written string depends on, separators and '<'/'>' pair with the same "
+        "flags on both sides; every GFF column the reader percent-decodes is encoded, field "
+        "separators and '%' are outside the safe set, characters that make the indexer skip a "
+        "line cannot start an entry, column order, strand symbols and '.' placeholders agree; "
+        "FASTQ offset table and entry-tuple order; GenBank field positions shift by exactly the "
+        "change in line count. Not decided: the full round trip of arbitrary entries, qualifier "
+        "regex parsing, ORIGIN formatting.",
+        "Trusted: single-element replacement lines[i] = x keeps positions; quote/unquote are "
+        "inverse outside the safe set; the idiom tables in sa/props/C12.py.",
+        "DESIGN.md section 2, C12",
+    )
     for p in ["C02", "C03", "C04", "C05", "C08", "C09", "C10",
-              "C11", "C12", "C13", "C14", "C15", "C16", "C17", "C18", "C19"]:
+              "C11", "C13", "C14", "C15", "C16", "C17", "C18", "C19"]:
         na(p, PENDING)
